@@ -208,10 +208,34 @@ def _sample_worker(d, chunk, extra):
     return out
 
 
+def _kinds_worker(d, chunk, extra):
+    """The navigation laws on DWARF 5 files whose units are compile, partial, type and skeleton units in every order."""
+    import c02
+    os.makedirs(dwbattery.DWDIR, exist_ok=True)
+    path = os.path.join(dwbattery.DWDIR, "c05k-%d.o" % os.getpid())
+    out = {"files": 0, "queries": 0, "bad": []}
+    for _, kinds, osz in chunk:
+        c02.build_unit_kinds(kinds, osz).write(path)
+        r = _sample_worker(d, [path], None)
+        out["files"] += r["files"]
+        out["queries"] += r["queries"]
+        for key, what, case in r["bad"]:
+            out["bad"].append(("kinds:%s:%d|%s" % (kinds, osz, case["qid"]), "DWARF 5 units of kinds %s, %d-byte offsets: %s" % ([c02.UNIT_KINDS[k][7:] for k in kinds], osz, what),
+                               {"kinds": kinds, "osz": osz, "qid": case["qid"]}))
+    try:
+        os.unlink(path)
+    except OSError:
+        pass
+    return out
+
+
 def replay(case):
     ctx = common.Ctx("C05", "quick")
     d = drv.Drv(ctx.bin("zwdrv"), "full", timeout=120, cmd_timeout=60)
     try:
+        if "kinds" in case:
+            r = _kinds_worker(d, [("kinds", case["kinds"], case["osz"])], None)
+            return any(b[2]["qid"] == case["qid"] for b in r["bad"])
         if "file" in case:
             r = _sample_worker(d, [case["file"]], None)
             return any(b[2]["qid"] == case["qid"] for b in r["bad"])
@@ -235,6 +259,12 @@ def main(ctx):
     for r in common.pmap(ctx, _worker, [(thorough, k, m) for k in range(m)], bins["zwdrv"], "full", timeout=120):
         for k in ("files", "queries", "results", "dies"):
             ctx.count(k, r[k])
+        for key, what, case in r["bad"]:
+            ctx.violation(key, what, case)
+    import c02
+    for r in common.pmap(ctx, _kinds_worker, common.chunks(c02.kind_cases(3 if ctx.tier == "thorough" else 2), 6), bins["zwdrv"], "full", timeout=300, cmd_timeout=120):
+        ctx.count("unit_kind_files", r["files"])
+        ctx.count("queries", r["queries"])
         for key, what, case in r["bad"]:
             ctx.violation(key, what, case)
     for r in common.pmap(ctx, _sample_worker, [[f] for f in sample_files()], bins["zwdrv"], "full", timeout=300, cmd_timeout=120):
